@@ -76,7 +76,7 @@ def stepOp (st : St) (toks : List String) : St :=
         | .ok (some (_, h)) => hasUnk h
         | _ => false
       { st with pendRes := some (recv genFixes st.cfg ep st.tr dat loc src now),
-                pendWf := wellFormed st.cfg ep dat loc src, pendUnk := unk }
+                pendWf := wellFormed st.cfg ep dat loc src now, pendUnk := unk }
     | _, _, _, _, _ => corrFail st "bad dg line"
   | "eff" :: rest =>
     let f := kvs rest
